@@ -67,6 +67,11 @@ func (e *pickEnv) mk(i int, scheme, cond string) string {
 	case "file":
 		switch cond {
 		case "missingdir":
+			if e.n%3 == 0 { // dead for another reason than ENOENT: an ancestor is a regular file (ENOTDIR)
+				os.MkdirAll(dir, 0755)
+				os.WriteFile(filepath.Join(dir, "afile"), []byte("x"), 0644)
+				return "file://" + filepath.Join(dir, "afile", "sub", "ware.tgz")
+			}
 			return "file://" + filepath.Join(dir, "nodir", "ware.tgz")
 		case "lacking":
 			os.MkdirAll(dir, 0755)
@@ -79,6 +84,14 @@ func (e *pickEnv) mk(i int, scheme, cond string) string {
 	case "ca+file":
 		switch cond {
 		case "missingdir":
+			if e.n%3 == 0 {
+				os.MkdirAll(filepath.Dir(dir), 0755)
+				os.WriteFile(dir+".f", []byte("x"), 0644)
+				return "ca+file://" + dir + ".f/wh"
+			}
+			if e.n%3 == 1 { // a component longer than NAME_MAX
+				return "ca+file://" + filepath.Join(dir, strings.Repeat("n", 300))
+			}
 			return "ca+file://" + dir
 		case "lacking":
 			os.MkdirAll(dir, 0755)
